@@ -36,14 +36,14 @@ META = dict(
 
 ALL_OUT = list(d.OUTCOMES)
 PROBES = {
-    "P1": dict(ex="A", typ="fut", lev="l5", mode="iso", fee="f1", bal="b0", warm="w1", rt="r0", sim="step", out="ok"),
-    "P2": dict(ex="A", typ="spot", lev="l1", mode="cross", fee="f1", bal="b1", warm="w0", rt="r1", sim="fast", out="ok"),
+    "P1": dict(ex="A", typ="fut", lev="l5", mode="iso", fee="f1", bal="b0", warm="w1", rt="r0", sim="step", hp="part", out="ok"),
+    "P2": dict(ex="A", typ="spot", lev="l1", mode="cross", fee="f1", bal="b1", warm="w0", rt="r1", sim="fast", hp="none", out="ok"),
 }
 SMALL = dict(Exs=["A", "B"], Typs=["spot", "fut"], Levs=["l1", "l5"], Modes=["cross", "iso"], Fees=["f0", "f1"],
-             Bals=["b0", "b1"], Warms=["w0", "w1"], Rts=["r0", "r1"], Sims=["step", "fast"])
+             Bals=["b0", "b1"], Warms=["w0", "w1"], Rts=["r0", "r1"], Sims=["step", "fast"], Hps=["none", "full", "part"])
 WIDE = dict(Exs=["A", "B", "C"], Typs=["spot", "fut"], Levs=["l1", "l2", "l5"], Modes=["cross", "iso"],
             Fees=["f0", "f1", "f2"], Bals=["b0", "b1"], Warms=["w0", "w1", "w2"], Rts=["r0", "r1", "r2"],
-            Sims=["step", "fast"])
+            Sims=["step", "fast"], Hps=["none", "full", "part"])
 INVARIANTS = ["SeesDriver", "SeesType", "SeesLeverage", "SeesMode", "SeesFeeRate", "SeesFeeInTrades", "SeesBalance",
               "SeesWarmSize", "SeesWarmVisible", "SeesRoutes", "SeesFreshVars"]
 ACTIONS = ["EarlierCall", "ProbeCall", "SetConfig", "SetRoutes", "StoreResetAtStart", "InitStorage", "InjectWarmup",
@@ -69,11 +69,11 @@ def tla_set(xs):
 def cfg(probe, lattice, calls, flips, intended, export, invariants=()):
     p = probe
     lines = ["SPECIFICATION Spec", "VIEW View", "CHECK_DEADLOCK FALSE", "CONSTANTS"]
-    for k in ("Exs", "Typs", "Levs", "Modes", "Fees", "Bals", "Warms", "Rts", "Sims"):
+    for k in ("Exs", "Typs", "Levs", "Modes", "Fees", "Bals", "Warms", "Rts", "Sims", "Hps"):
         lines.append(" %s = %s" % (k, tla_set(lattice[k])))
     lines.append(" Outcomes = %s" % tla_set(ALL_OUT))
-    lines.append(' PEx = "%s" PTyp = "%s" PLev = "%s" PMode = "%s" PFee = "%s" PBal = "%s" PWarm = "%s" PRt = "%s" PSim = "%s"'
-                 % (p["ex"], p["typ"], p["lev"], p["mode"], p["fee"], p["bal"], p["warm"], p["rt"], p["sim"]))
+    lines.append(' PEx = "%s" PTyp = "%s" PLev = "%s" PMode = "%s" PFee = "%s" PBal = "%s" PWarm = "%s" PRt = "%s" PSim = "%s" PHp = "%s"'
+                 % (p["ex"], p["typ"], p["lev"], p["mode"], p["fee"], p["bal"], p["warm"], p["rt"], p["sim"], p["hp"]))
     t = "TRUE" if intended else "FALSE"
     lines.append(" MaxCalls = %d MaxFlips = %d" % (calls, flips))
     lines.append(" CacheInvalidated = %s DriversRebuilt = %s SharedVarsReset = %s Export = %s"
@@ -105,7 +105,9 @@ def expected(a):
     return dict(typ="futures" if fut else "spot", lev=str(d.LEV[a["lev"]]) if fut else "n/a",
                 mode=d.MODE[a["mode"]] if fut else "n/a", fee=d.r(float(d.FEE[a["fee"]])), bal=d.r(float(d.BAL[a["bal"]])),
                 visible=str(nwarm // tf + 1), slice=str(wnum if 0 < wnum < d.PROBE_ROWS else d.PROBE_ROWS),
-                routes=[[ex, s, t] for s, t in trading + data], hp=[["every", "9"]])
+                routes=[[ex, s, t] for s, t in trading + data],
+                hp=[[k, str(d.HP_DEFAULTS_PROBE[k] if (d.HP[a["hp"]] or {}).get(k) is None else d.HP[a["hp"]][k])]
+                    for k in ("every", "tp", "hold")])
 
 
 def enc_run(rec):
